@@ -845,4 +845,44 @@ theorem scan_strip (core : List (Record W) → Findings W T)
 
 end
 
+/-! ### the encoders do not look at the `json:"-"` fields -/
+
+section
+variable {W T : Type} (L : Leaves W T)
+
+theorem encChain_strip (rest : List (Pkg W)) : ∀ p : Pkg W,
+    encChain L (stripPkg p) (rest.map stripPkg) = encChain L p rest := by
+  induction rest with
+  | nil => intro p; rfl
+  | cons q qs ih =>
+    intro p
+    simp only [List.map_cons, encChain, ih q]
+    rfl
+
+theorem encPackage_strip (p : Package W) : encPackage L (stripPackage p) = encPackage L p :=
+  encChain_strip L p.sources p.head
+
+theorem encMapM_congr {β : Type} (e : β → Option J) (g : β → β) (h : ∀ x, e (g x) = e x) (m : GoMap β) :
+    encMapM e (m.map (List.map fun p => (p.1, g p.2))) = encMapM e m := by
+  cases m with
+  | none => rfl
+  | some kv =>
+    simp only [Option.map_some, encMapM, List.mapM_map]
+    congr 2
+    funext p
+    simp [h]
+
+theorem encIR_strip (r : IndexReport W) : encIR L (stripIR r) = encIR L r := by
+  have : encMapM (encOptPtr (encPackage L)) (stripPkgMap r.packages) =
+      encMapM (encOptPtr (encPackage L)) r.packages := by
+    apply encMapM_congr _ (Option.map stripPackage)
+    intro x
+    cases x with
+    | none => rfl
+    | some p => exact encPackage_strip L p
+  simp only [encIR, stripIR, this]
+  rfl
+
+end
+
 end ClairModel.ReportJson
